@@ -47,6 +47,8 @@ pub mod unicode_input;
 mod unit;
 mod unit_registry;
 pub mod value;
+#[cfg(feature = "verif")]
+pub mod verif;
 mod vm;
 
 use std::borrow::Cow;
